@@ -1,3 +1,66 @@
 package main
 
-func corpusCmd(args []string) int { return 0 }
+import (
+	"encoding/json"
+	"fmt"
+	"os"
+	"path/filepath"
+)
+
+// corpusCmd: development aid. `verif corpus export <dir> [deco]` materialises every shape of the thorough corpus
+// (source, generated program, and the dynamic round-trip harness from tools/dyn) together with the static verdicts,
+// so that the TV rules and the known-findings list can be validated against executions (DESIGN.md §6). Decides nothing.
+func corpusCmd(args []string) int {
+	if len(args) < 2 || args[0] != "export" {
+		fmt.Fprintln(os.Stderr, "usage: verif corpus export <dir> [deco]")
+		return 2
+	}
+	out := args[1]
+	deco := len(args) > 2 && args[2] == "deco"
+	u, err := newScratch(true)
+	if err != nil {
+		fmt.Fprintln(os.Stderr, err)
+		return 2
+	}
+	defer u.Close()
+	cp, err := newCorpus(u)
+	if err != nil {
+		fmt.Fprintln(os.Stderr, err)
+		return 2
+	}
+	items, _, _ := corpusItems("thorough", 0)
+	if deco {
+		_, _, items, _, _ = c14Items(cp, "thorough", 0)
+	}
+	res := cp.runAll(items, false)
+	tmpl, err := os.ReadFile(filepath.Join(u.Verif, "tools", "dyn", "rt_test.go.tmpl"))
+	if err != nil {
+		fmt.Fprintln(os.Stderr, err)
+		return 2
+	}
+	os.MkdirAll(out, 0o755)
+	os.WriteFile(filepath.Join(out, "go.mod"), []byte("module shapes\n\ngo 1.20\n\nrequire github.com/parsyl/parquet v0.0.0\n\nreplace github.com/parsyl/parquet => "+u.Repo+"\n"), 0o644)
+	sum, _ := os.ReadFile(filepath.Join(u.Repo, "go.sum"))
+	os.WriteFile(filepath.Join(out, "go.sum"), sum, 0o644)
+	f, _ := os.Create(filepath.Join(out, "static.jsonl"))
+	defer f.Close()
+	enc := json.NewEncoder(f)
+	for i, r := range res {
+		id := fmt.Sprintf("s%05d", i)
+		var viol []string
+		for _, v := range r.viol {
+			viol = append(viol, v.rule+" col "+v.col+": "+v.msg)
+		}
+		enc.Encode(map[string]interface{}{"id": id, "shape": r.item.key, "status": r.status, "err_funcs": r.errFuncs, "viol": viol})
+		if r.status == "GENFAIL" || r.status == "PARSEFAIL" {
+			continue
+		}
+		d := filepath.Join(out, id)
+		os.MkdirAll(d, 0o755)
+		os.WriteFile(filepath.Join(d, "s.go"), []byte(r.item.src), 0o644)
+		os.WriteFile(filepath.Join(d, "parquet.go"), r.text, 0o644)
+		os.WriteFile(filepath.Join(d, "rt_test.go"), tmpl, 0o644)
+	}
+	fmt.Printf("exported %d shapes to %s\n", len(res), out)
+	return 0
+}
